@@ -1111,6 +1111,15 @@ impl DistributedTxCoordinator {
         Ok(())
     }
 
+    /// Drop everything a finished transaction may still own. Releasing by the recorded lock
+    /// handles is not enough: a prepare whose vote never reached the coordinator (or was
+    /// refused) still holds its locks, and a `Conflict` vote leaves the transaction as a
+    /// waiter in the wait-for graph. Caller holds `pending` (lock order: pending -> locks).
+    fn release_finished(&self, tx_id: u64) {
+        self.lock_manager.release(tx_id);
+        self.wait_graph.remove_transaction(tx_id);
+    }
+
     /// Recover coordinator state from the WAL.
     ///
     /// Returns statistics about recovered transactions:
@@ -1616,6 +1625,8 @@ impl DistributedTxCoordinator {
             }
         }
 
+        self.release_finished(tx_id);
+
         // Mark all locks released
         let _ = self.log_wal_entry(&TxWalEntry::AllLocksReleased { tx_id });
 
@@ -1656,6 +1667,7 @@ impl DistributedTxCoordinator {
                     .release_by_handle_with_wait_cleanup(*lock_handle, &self.wait_graph);
             }
         }
+        self.release_finished(tx_id);
 
         tx.phase = TxPhase::Committed;
         self.stats.committed.fetch_add(1, Ordering::Relaxed);
@@ -1691,6 +1703,7 @@ impl DistributedTxCoordinator {
                     .release_by_handle_with_wait_cleanup(*lock_handle, &self.wait_graph);
             }
         }
+        self.release_finished(tx_id);
 
         tx.phase = TxPhase::Aborted;
         self.stats.aborted.fetch_add(1, Ordering::Relaxed);
@@ -1747,6 +1760,7 @@ impl DistributedTxCoordinator {
                     .release_by_handle_with_wait_cleanup(*lock_handle, &self.wait_graph);
             }
         }
+        self.release_finished(tx_id);
 
         tx.phase = TxPhase::Aborted;
         self.stats.aborted.fetch_add(1, Ordering::Relaxed);
@@ -1798,6 +1812,7 @@ impl DistributedTxCoordinator {
                             .release_by_handle_with_wait_cleanup(*lock_handle, &self.wait_graph);
                     }
                 }
+                self.release_finished(*tx_id);
                 self.stats.timed_out.fetch_add(1, Ordering::Relaxed);
             }
         }
@@ -2114,6 +2129,7 @@ impl DistributedTxCoordinator {
                             .release_by_handle_with_wait_cleanup(*lock_handle, &self.wait_graph);
                     }
                 }
+                self.release_finished(tx_id);
             }
         }
 
@@ -2186,6 +2202,7 @@ impl DistributedTxCoordinator {
                             .release_by_handle_with_wait_cleanup(*lock_handle, &self.wait_graph);
                     }
                 }
+                self.release_finished(tx_id);
                 tx.phase = TxPhase::Committed;
                 self.stats.committed.fetch_add(1, Ordering::Relaxed);
                 pending.remove(&tx_id);
@@ -2203,6 +2220,7 @@ impl DistributedTxCoordinator {
                         .release_by_handle_with_wait_cleanup(*lock_handle, &self.wait_graph);
                 }
             }
+            self.release_finished(tx_id);
             tx.phase = TxPhase::Aborted;
             self.stats.aborted.fetch_add(1, Ordering::Relaxed);
             pending.remove(&tx_id);
